@@ -134,6 +134,10 @@ func main() {
 				switch s := node.(type) {
 				case *ast.SendStmt:
 					rep.Unsupported = append(rep.Unsupported, pos(fset, s.Pos())+": channel send")
+				case *ast.SelectorExpr:
+					if x, ok := s.X.(*ast.Ident); ok && x.Name == "sync" && (s.Sel.Name == "Cond" || s.Sel.Name == "NewCond") {
+						rep.Unsupported = append(rep.Unsupported, pos(fset, s.Pos())+": sync.Cond")
+					}
 				case *ast.SelectStmt:
 					rep.Unsupported = append(rep.Unsupported, pos(fset, s.Pos())+": select")
 				case *ast.UnaryExpr:
